@@ -12,7 +12,7 @@ import re
 import sys
 import zlib
 
-sys.path.insert(0, '/repo') if '/repo' not in sys.path else None
+sys.path.insert(0, __import__('os').environ.get('PYVC_REPO', '/repo'))
 from hypothesis import given, settings, strategies as st, seed as hseed, HealthCheck
 import jsonpickle
 
